@@ -7,6 +7,11 @@ ALL = ["C%02d" % i for i in range(1, 21)]
 
 # id -> (category, technique, level text, level note, design ref, engine)
 CHECKS = {
+ "C04": ("model_checking",
+         "exhaustive enumeration of the configuration space (source compression x target x force x format; input x allowed set x goal) with an independent decode oracle",
+         "All 120 conversion configurations (3 source compressions x {keep,none,gzip,brotli} x force flag x 5 target formats, MBTiles for its legal pairs) are run through TilesConvertReader and the real writers on a multi-thread runtime over five payloads (1 B .. 300 KiB, incompressible and highly compressible); every output tile is decoded with the compression the output declares by the harness's own gzip/brotli calls and must equal the source payload; the bytes must really be in the declared encoding; metadata must survive. All 3x3 recompress pairs and all 3 x 8 x 3 optimize_compression cells per payload: result in the allowed set, payload preserved, no failure when 'uncompressed' is allowed, no recompression when marked incompressible.",
+         "The configuration space is closed; the payload dimension is five representatives. flate2/brotli are trusted.",
+         "3/C04", "E-enum"),
  "C16": ("model_checking",
          "bounded-exhaustive enumeration of encoder layout choices (independent spec encoders) x BFS tile-set states; every produced container opened, looked up, coverage-checked and streamed with the real readers",
          "The harness's own encoders for versatiles v02 (96 layouts: partial/full/margin block coverage, block and tile order, shared ranges, padding, no metadata), PMTiles v3 (112 layouts: run lengths, shared offsets, 0-2 leaf levels with tiny leaves, uncompressed/gzip directories, unclustered data), MBTiles (16: tiles as view over map/images, extra metadata, no index, TMS rows, zoom gaps), tar (32: ./ prefix, directory entries, ustar/GNU, order) and directories with foreign files are run over every BFS tile set to depth 2 (all layouts for depth<=1 and the named families, a spread of layouts for depth 2 in quick, all in thorough); the repository's readers must open each, return exactly the encoded tiles, advertise the exact coverage (containment for versatiles) and stream it without failure.",
